@@ -279,4 +279,78 @@ theorem mkMsg_wf (t : UInt8) (body : Bytes) (h : body.length < 2 ^ 24) : WFMsg (
   have h2 : ¬ (4 + body.length - (1 + 3) < body.length) := by omega
   simp only [h1, h2, if_false]
 
+/-! ## sender fragmentation (`_sendMsg`) -/
+
+theorem fragmentLoop_flatten (k : Nat) : ∀ (fuel : Nat) (buf : Bytes),
+    (fragmentLoop k fuel buf).flatten = buf := by
+  intro fuel
+  induction fuel with
+  | zero => intro buf; simp [fragmentLoop]
+  | succ fuel ih =>
+    intro buf
+    simp only [fragmentLoop]
+    split
+    · simp [ih]
+    · simp
+
+theorem fragmentLoop_nonempty (k : Nat) (hk : 1 ≤ k) : ∀ (fuel : Nat) (buf : Bytes), buf ≠ [] →
+    ∀ f ∈ fragmentLoop k fuel buf, f ≠ [] := by
+  intro fuel
+  induction fuel with
+  | zero => intro buf hb f hf; simp [fragmentLoop] at hf; subst hf; exact hb
+  | succ fuel ih =>
+    intro buf hb f hf
+    simp only [fragmentLoop] at hf
+    split at hf
+    · rename_i hlen
+      simp at hf
+      rcases hf with rfl | hf
+      · intro h
+        have := congrArg List.length h
+        rw [List.length_take, List.length_nil] at this
+        omega
+      · refine ih (buf.drop k) ?_ f hf
+        intro h
+        have := congrArg List.length h
+        simp at this
+        omega
+    · simp at hf; subst hf; exact hb
+
+theorem fragmentLoop_le (k : Nat) (hk : 1 ≤ k) : ∀ (fuel : Nat) (buf : Bytes), buf.length ≤ fuel →
+    ∀ f ∈ fragmentLoop k fuel buf, f.length ≤ k := by
+  intro fuel
+  induction fuel with
+  | zero =>
+    intro buf hb f hf
+    simp [fragmentLoop] at hf; subst hf; omega
+  | succ fuel ih =>
+    intro buf hb f hf
+    simp only [fragmentLoop] at hf
+    split at hf
+    · rename_i hlen
+      simp at hf
+      rcases hf with rfl | hf
+      · simp; omega
+      · exact ih (buf.drop k) (by simp; omega) f hf
+    · rename_i hlen
+      simp at hf; subst hf; omega
+
+theorem fragmentMsg_spec (k : Nat) (hk : 1 ≤ k) (buf : Bytes) :
+    (fragmentMsg k buf).flatten = buf ∧ (∀ f ∈ fragmentMsg k buf, f.length ≤ k) ∧
+    (buf ≠ [] → ∀ f ∈ fragmentMsg k buf, f ≠ []) :=
+  ⟨fragmentLoop_flatten k _ buf, fragmentLoop_le k hk _ buf (Nat.le_refl _),
+   fun hb => fragmentLoop_nonempty k hk _ buf hb⟩
+
+theorem flatMap_fragment_flatten (k : Nat) (bufs : List Bytes) :
+    (bufs.flatMap (fragmentMsg k)).flatten = bufs.flatten := by
+  induction bufs with
+  | nil => simp
+  | cons b bs ih => simp [List.flatMap_cons, ih, fragmentMsg, fragmentLoop_flatten]
+
+/-- an empty handshake record is refused as soon as it is read -/
+theorem empty_fragment_refused (tls13 : Bool) (c : Bytes) (rest : List Rec)
+    (hs : hsHandler.size c = none) :
+    getNextRecord tls13 (tls3 [] [] c) ({ type := 22, data := [] } :: rest) = .error .unexpectedMessage := by
+  simp [getNextRecord, tls3_getMessage, hs, fromSocketCheck]
+
 end Tls.IO
